@@ -16,6 +16,7 @@ import (
 
 	"github.com/hedzr/is/term/color"
 	"github.com/hedzr/logg/slog"
+	errorsv3 "gopkg.in/hedzr/errors.v3"
 )
 
 // ---- values ----
@@ -81,6 +82,8 @@ func (v GVal) Go() any {
 		return slog.Level(v.I)
 	case "error":
 		return errors.New(v.S)
+	case "stackerr": // history records only (never a probe, never sent to the model): an errors.v3 error that carries its stack
+		return errorsv3.New(v.S)
 	case "bool":
 		return v.B
 	case "int":
